@@ -48,12 +48,17 @@ def main():
     rc_t, out_t = sh(f"{PY} -m pytest -q -p no:cacheprovider -x", cwd=wt, env=env)
     tests_line = [l for l in out_t.splitlines() if "passed" in l or "failed" in l][-1:] or [out_t[-200:]]
     rc_d1, out_d1 = sh(f"{PY} seed_demo.py", cwd=wt, env=env) if demo.exists() else (None, "no demo")
-    # without the patch
-    sh("git stash", cwd=wt)
+    # without the patch (git stash is shared between worktrees: reverse-apply the diff instead)
+    pf = Path("/tmp") / f"seed-own-{name}.diff"
+    pf.write_text(diff)
+    rc_r, o_r = sh(f"git apply -R {pf}", cwd=wt)
+    assert rc_r == 0, o_r
     try:
         rc_d0, out_d0 = sh(f"{PY} seed_demo.py", cwd=wt, env=env) if demo.exists() else (None, "no demo")
     finally:
-        sh("git stash pop", cwd=wt)
+        rc_a, o_a = sh(f"git apply {pf}", cwd=wt)
+        assert rc_a == 0, o_a
+        pf.unlink(missing_ok=True)
     confirmed = rc_t == 0 and rc_d1 == 1 and rc_d0 == 0
     print(f"suite with patch: {tests_line[0].strip()} | demo with patch rc={rc_d1} | demo without rc={rc_d0} | confirmed={confirmed}")
     # run the checks against the patched /repo
